@@ -677,9 +677,10 @@ class Runner(object):
                 # the server logs to whatever stderr it is given
                 os.environ.pop('SUPP_LOG_FILE', None)
             self.sess = ru.Session(logfile=None if self.meta.get('no_logfile') else self.logfile, env={'PYTHONPATH': os.pathsep.join(
-                [os.environ.get('PYTHONPATH', core.REPO + os.pathsep + core.VERIF), self.root])})
+                [os.environ.get('PYTHONPATH', core.REPO + os.pathsep + core.VERIF), self.root])},
+                clock_jump=bool(self.meta.get('clock_jump')))
             try:
-                self.sess.env.run()
+                self.sess.start()
                 self.pid = self.sess.env.proc.pid
                 err = None
                 break
@@ -711,6 +712,10 @@ class Runner(object):
         try:
             if self.sess is not None:
                 self.sess.kill()
+                if self.pid is not None:
+                    self.p.count('sessions_with_clock_jump_proxy' if self.sess.clock_jump else 'sessions_with_truthful_proxy')
+                    self.p.count('client_poll_calls_observed', self.sess.conn_stats['poll_calls'])
+                    self.p.count('client_poll_timeouts_cut_short', self.sess.conn_stats['poll_timeouts_cut_short'])
             self.read_server_log()
         finally:
             if self.base:
@@ -1083,6 +1088,7 @@ def long_history(rng, counter):
 SIZES = [0, 1, 31, 32, 65535, 65536, 65537, 1 << 20, 8 << 20]
 SLOW_QUICK = [0.5, 2, 6.5]
 SLOW_THOROUGH = [0.5, 2, 6.5, 11, 16]
+JUMP_SLEEPS = [0.3, 0.6, 1.0]
 
 
 def slow_spec(d, counter):
@@ -1200,6 +1206,12 @@ def work(arg):
 
     # (s) slow requests: its own work item, so that the sleeping overlaps with everything else
     if arg.get('slow'):
+        # the connection proxy lets the clock jump in poll(): whatever finite timeout a client has, the
+        # reply to a request that sleeps 0.3..1 s comes "too late" for it
+        hs = [(('slow-clock-jump', seed, d), slow_history(d, counter, rng)) for d in JUMP_SLEEPS]
+        isolated_session(part, hs, {'workload': 'slow-requests-clock-jump', 'seed': seed, 'clock_jump': True})
+        if part.violations:
+            return part.dump()
         hs = [(('slow', seed, d), slow_history(d, counter, rng)) for d in arg['slow']]
         isolated_session(part, hs, {'workload': 'slow-requests', 'seed': seed})
         return part.dump()
@@ -1228,7 +1240,12 @@ def work(arg):
     per = 3 if quick else 5
     for s in range(0, nlong, per):
         hs = [(('long', seed, w, s + j), long_history(rng, counter)) for j in range(min(per, nlong - s))]
-        isolated_session(part, hs, {'workload': 'long-histories', 'seed': seed, 'worker': w, 'start': s})
+        jump = (s // per + w) % 2 == 0
+        if jump:
+            for _, h in hs:
+                at = rng.randint(0, len(h) - 1)
+                h[at:at] = [slow_spec(rng.choice([0.3, 0.5]), counter), echo_spec(counter)]
+        isolated_session(part, hs, {'workload': 'long-histories', 'seed': seed, 'worker': w, 'start': s, 'clock_jump': jump})
         if part.violations:
             return part.dump()
 
@@ -1286,7 +1303,8 @@ def main(run):
                  'server_log:request_errors', 'server_log:send_errors', 'slow_requests_answered',
                  'histories_with_reconfigure', 'histories_with_dyn_modules_change',
                  'replies_through_M_compared_after:same-roots-dyn-change', 'histories_with_failing_configure',
-                 'project_dependent_replies_compared_after_failed_configure', 'long_failing_sessions_without_logfile'),
+                 'project_dependent_replies_compared_after_failed_configure', 'long_failing_sessions_without_logfile',
+                 'sessions_with_clock_jump_proxy'),
         assumptions=[
             'client and server run the same interpreter with the same PYTHONPATH/PYTHONHASHSEED; generated sources import only the '
             'temp project and stdlib modules that resolve identically in both processes (sys.path[0] differs: /repo/supp vs /verif)',
@@ -1304,6 +1322,9 @@ def main(run):
             'stdout/stderr pipe (/proc/<pid>/wchan, syscall, fd links); a watchdog firing without that evidence is inconclusive',
             'each session runs in a freshly forked harness process, so the mirror process has seen exactly the requests the server process has seen',
             'nesting depth of unserialisable probes >= 3000 (certain RecursionError in dumps at the default recursion limit); no depth between 100 and 3000 is used',
+            'in the sessions with the clock-jump proxy the connection object handed to supp.remote answers poll(timeout) after at most 50 ms '
+            'of real time, truthfully about whether data is there; send/recv are untouched; a client that never polls (poll calls are counted) '
+            'or that polls until data arrives is unaffected',
             'slow requests (server-side time.sleep of 0.5..16 s) are workload only: the verdict is reply == expected value and the pairing of the following replies',
             'one client thread; method names close/run/process/conn/project and BaseExceptions are not sent',
             'a recv blocking > %d s (300 s for the 30000-row lint reply) kills the server and makes the run inconclusive, never a violation' % ru.WATCHDOG_S],
